@@ -258,15 +258,18 @@ pub trait BaseVector<T: RealNumber>: Clone + Debug {
         let n = self.len();
 
         let mut mu = T::zero();
-        let mut sum = T::zero();
         let div = T::from_usize(n).unwrap();
         for i in 0..n {
-            let xi = self.get(i);
-            mu += xi;
-            sum += xi * xi;
+            mu += self.get(i);
         }
         mu /= div;
-        sum / div - mu.powi(2)
+        // two-pass: sum of squared deviations from the mean (no cancellation for data with a large offset)
+        let mut sum = T::zero();
+        for i in 0..n {
+            let d = self.get(i) - mu;
+            sum += d * d;
+        }
+        sum / div
     }
     /// Computes the standard deviation.
     fn std(&self) -> T {
